@@ -116,6 +116,15 @@ def run(res):
                         cases.append((pre + ".dseg\n.byte %d\n" % (rsize + delta), exp, name, "ram/reserve-after-" + other.split()[0]))
                     if eep + delta >= 1:
                         cases.append((pre + ".eseg\n.byte %d\n" % (eep + delta), exp, name, "eeprom/reserve-after-" + other.split()[0]))
+        # usage is the extent: an .org back over what is already used is refused, in every memory (it cannot "free" anything)
+        if rsize >= 4:
+            cases.append((head + ".dseg\nbig: .byte %d\n.org %d\nsmall: .byte 1\n" % (rsize, rstart), "ERR", name, "ram/org-backwards"))
+            cases.append((head + ".dseg\nbig: .byte %d\n.org %d\nsmall: .byte 1\n" % (rsize + 1, rstart), "ERR", name, "ram/org-backwards"))
+            cases.append((head + ".dseg\n.byte 3\n.org %d\n.byte 1\n" % (rstart + 1), "ERR", name, "ram/org-backwards"))
+        if eep >= 4:
+            cases.append((head + ".eseg\n.byte %d\n.org 0x1\n.db 1\n" % (eep + 1), "ERR", name, "eeprom/org-backwards"))
+            cases.append((head + ".eseg\n.db 1, 2, 3\n.org 1\n.db 9\n", "ERR", name, "eeprom/org-backwards"))
+        cases.append((head + " nop\n nop\n nop\n.org 1\n nop\n", "ERR", name, "flash/org-backwards"))
         cases.append((head + ".device %s\n" % name, "ERR", name, "second-device"))
         # the device may be selected anywhere: late in the file, inside a taken conditional, through a macro call
         for how, sel in (("late", "nop\n.device %s\n" % name), ("conditional", ".if 1\n.device %s\n.endif\n" % name),
